@@ -60,7 +60,7 @@ struct Shared {
 }
 
 /// is some socket listening on this TCP port? (read-only: /proc/net/tcp)
-fn tcp_listening(port: u16) -> bool {
+pub fn tcp_listening(port: u16) -> bool {
     let tag = format!(":{port:04X}");
     std::fs::read_to_string("/proc/net/tcp")
         .map(|t| t.lines().skip(1).any(|l| {
